@@ -52,8 +52,16 @@ bool MatrixMul::is_canonical(const RCP<const Basic> &scalar,
     size_t num_diag = 0;
     size_t num_dense = 0;
     for (auto factor : factors) {
-        if (is_a<ZeroMatrix>(*factor) || is_a<IdentityMatrix>(*factor)
-            || is_a<MatrixMul>(*factor)) {
+        if (is_a<ZeroMatrix>(*factor)) {
+            // A product with a zero factor is the zero matrix. It is only kept
+            // unevaluated while the dimensions of the product are unknown
+            auto nrows = size(down_cast<const MatrixExpr &>(*factors.front()));
+            auto ncols = size(down_cast<const MatrixExpr &>(*factors.back()));
+            if (!nrows.first.is_null() && !ncols.second.is_null()) {
+                return false;
+            }
+        }
+        if (is_a<IdentityMatrix>(*factor) || is_a<MatrixMul>(*factor)) {
             return false;
         } else if (is_a<DiagonalMatrix>(*factor)) {
             num_diag++;
@@ -202,10 +210,16 @@ RCP<const MatrixExpr> matrix_mul(const vec_basic &factors)
 
     check_matching_mul_sizes(expanded);
 
-    // Handle ZeroMatrix first
-    for (auto &factor : factors) {
+    // Handle ZeroMatrix first: the product is the zero matrix with the rows of
+    // the first and the columns of the last factor
+    for (auto &factor : expanded) {
         if (is_a<ZeroMatrix>(*factor)) {
-            return rcp_static_cast<const MatrixExpr>(factor);
+            auto nrows = size(down_cast<const MatrixExpr &>(*expanded.front()));
+            auto ncols = size(down_cast<const MatrixExpr &>(*expanded.back()));
+            if (!nrows.first.is_null() && !ncols.second.is_null()) {
+                return zero_matrix(nrows.first, ncols.second);
+            }
+            break;
         }
     }
 
